@@ -441,7 +441,7 @@ func (fr *Frame) appendB(ins ssa.Instruction, c *ssa.CallCommon, args []Val) Val
 	return Val{C: []string{np, newlen, nc}}
 }
 
-func (q *Query) optsNoContents() bool { return false }
+func (q *Query) optsNoContents() bool { return q.opts != nil && q.opts.NoContents }
 
 func (fr *Frame) copyB(ins ssa.Instruction, c *ssa.CallCommon, args []Val) Val {
 	q := fr.q
@@ -475,8 +475,10 @@ func (fr *Frame) copyB(ins ssa.Instruction, c *ssa.CallCommon, args []Val) Val {
 		} else {
 			src = fmt.Sprintf("(select %s (+ %s (- i %s)))", old, spt, dp)
 		}
-		q.assume(fr.cur.reach, fmt.Sprintf("(forall ((i Int)) (! (= (select %s i) (ite (and (<= %s i) (< i (+ %s %s))) %s (select %s i))) :pattern ((select %s i))))",
-			na, dp, dp, sMulC(n, k), src, old, na))
+		if !q.optsNoContents() {
+			q.assume(fr.cur.reach, fmt.Sprintf("(forall ((i Int)) (! (= (select %s i) (ite (and (<= %s i) (< i (+ %s %s))) %s (select %s i))) :pattern ((select %s i))))",
+				na, dp, dp, sMulC(n, k), src, old, na))
+		}
 		st.v[lf.Arr] = na
 	}
 	return Val{C: []string{n}}
